@@ -551,7 +551,7 @@ impl<'a> Exec<'a> {
             Op::RCreate { .. } | Op::RDestroy { .. } | Op::RAdd { .. } | Op::RLimit { .. } | Op::RMarkers { .. } | Op::RSearch { .. } | Op::RRead { .. } => {
                 self.do_registry(ix, op);
             }
-            Op::Dist { .. } | Op::Jacc { .. } | Op::WMatch { .. } | Op::Burst { .. } => {
+            Op::Dist { .. } | Op::Jacc { .. } | Op::WMatch { .. } | Op::Burst { .. } | Op::JCheck { .. } => {
                 #[cfg(feature = "hooks")]
                 crate::scratch::step(self, ix, op);
             }
@@ -874,6 +874,14 @@ impl<'a> Exec<'a> {
             }
             Err(p) => {
                 self.record(ix, op, &p.render());
+                if self.on("C18") && !self.stores[&s].ever_cleared && !p.is_hook_assert() {
+                    // no candidate list at all: is that the input's fault or this index's history?
+                    let (m, qq) = (self.stores[&s].model.clone(), q.to_string());
+                    self.out.evals += 1;
+                    if let Ok(c) = self.pristine(move || sut::prepare(&m.build(), &qq, size)) {
+                        self.violate("C18", "C18.prepare_panic", ix, &p.loc.clone(), p.render(), format!("an index built from the same adds on a fresh thread returns {:?}", c), String::new());
+                    }
+                }
                 self.on_panic(ix, &p);
                 return;
             }
